@@ -644,7 +644,8 @@ class Zone(dns.transaction.TransactionManager):
             kw["sorted"] = sorted
             kw["relativize"] = relativize
             if relativize:
-                assert self.origin is not None
+                if self.origin is None:
+                    raise UnknownOrigin
                 kw["origin"] = self.origin
             kw["nl"] = nl
             kw["want_comments"] = want_comments
